@@ -15,11 +15,16 @@ with a lawful order and EVERY function that satisfies the documentation of `sort
 * the table is right (`TableOk`: kernel `decide` over all 42 × 6 entries): an arm exists exactly under C13V's
   patterns, constructs the connector whose id is the pattern's exchange, the kind type of the pattern's kind, a
   `StreamSelector` exists for the pair, and the stream is forwarded into the family created for that kind;
-* for every right table `init` refines the specification: on supported input every subscription of a batch is
+* with that table `init` refines the specification: on supported input every subscription of a batch is
   initialised under the connector whose id equals its own exchange id, with its own kind and instrument, exactly
   once per batch holding it, and nothing else is; on unsupported input the validation error names a rejected
-  subscription and nothing is initialised;
-* a table that is wrong in one body is caught by the specification on a concrete batch (counter-theorems).
+  subscription and nothing is initialised. (The theorems are written over a table variable `tbl` with the
+  hypothesis `TableOk tbl`; `tableOk_unique` shows there is exactly one such table, the repository's — the
+  hypothesis names the four facts about the table the proofs use, it is not a generalisation. The tie of the
+  hand-copied table to dynamic/mod.rs is the harness.)
+* a table that is wrong in the connector or the kind of one body is caught by the specification on a concrete
+  batch (counter-theorems); a table that is wrong in the channel FAMILY is not (`wrong_chan_satisfies_spec`):
+  the family is read from the source, unobserved offline and unconstrained by `Spec`.
 -/
 namespace BarterModel.Props.C13D
 open BarterModel.Names (ExchangeId Str)
@@ -76,12 +81,17 @@ theorem arm_bodies_injective (e e' : ExchangeId) (k k' : SubKind) (b b' : Body)
   have h4 := armBody_ok.own_kind e' k' b' h'
   rw [← h1, ← h2, ← h3, ← h4, hc, hk]
 
-/-- The URL an arm dials is a secure websocket URL of its own venue (C13Q's `urlOk`), and different connectors
-dial different URLs — so the URL the code logs identifies the connector. -/
-theorem arm_dials_own_venue (e : ExchangeId) (k : SubKind) (b : Body) (_h : armBody e k = some b) :
-    BarterModel.SubRequests.urlOk b.conn = true := by
+/-- EVERY connector type dials a secure websocket URL of its own venue (C13Q's `urlOk`) — a fact about the 15
+connectors, not about the arms (the restatement of `arm_dials_own_venue` without its idle hypothesis) — and
+different connectors dial different URLs (`urls_distinct`), so the URL the code logs identifies the connector. -/
+theorem every_connector_dials_own_venue (c : Exch) : BarterModel.SubRequests.urlOk c = true := by
   have : ∀ c ∈ connAll, BarterModel.SubRequests.urlOk c = true := by decide +kernel
-  exact this b.conn (connAll_complete b.conn)
+  exact this c (connAll_complete c)
+
+/-- Corollary for the connector an arm constructs (the hypothesis is not needed: see
+`every_connector_dials_own_venue`). -/
+theorem arm_dials_own_venue (e : ExchangeId) (k : SubKind) (b : Body) (_h : armBody e k = some b) :
+    BarterModel.SubRequests.urlOk b.conn = true := every_connector_dials_own_venue b.conn
 
 theorem urls_distinct (c c' : Exch)
     (h : BarterModel.SubRequests.urlParsed c = BarterModel.SubRequests.urlParsed c') : c = c' := by
@@ -89,7 +99,55 @@ theorem urls_distinct (c c' : Exch)
       BarterModel.SubRequests.urlParsed c = BarterModel.SubRequests.urlParsed c' → c = c' := by decide +kernel
   exact this c (connAll_complete c) c' (connAll_complete c') h
 
-/-- Every call uses `STREAM_RECONNECTION_POLICY` (125 ms × 2ⁿ, capped at 60 s: C12I `default_policy_waits`). -/
+/-- BOOKKEEPING (definitional): the policy is a constant of `callOf`, so every call of the MODEL carries
+`STREAM_RECONNECTION_POLICY` for any table and any sort whatsoever — the statement says that the model writes
+the constant down (125 ms × 2ⁿ, capped at 60 s: C12I `default_policy_waits`); that the CODE passes it is what
+the `ims` line of the correspondence compares. -/
+theorem policy_is_a_constant_of_the_model {ι : Type} [DecidableEq ι] (tbl : Table) (ops : InstOps ι)
+    (usort : List (Subscr ι) → List (Subscr ι)) (batches : List (List (Subscr ι))) :
+    ∀ c ∈ (init tbl ops usort batches).calls, c.policy = ⟨125, 2, 60000⟩ := by
+  have hra : ∀ g c, runArm (ι := ι) tbl g = .ok c → c.policy = ⟨125, 2, 60000⟩ := by
+    intro g c h
+    unfold runArm at h
+    split at h
+    · cases h
+    · split at h
+      · cases h
+      · injection h with h; subst h; rfl
+  have hrs : ∀ gs : List ((ExchangeId × SubKind) × List (Subscr ι)), ∀ c ∈ (runArms tbl gs).1, c.policy = ⟨125, 2, 60000⟩ := by
+    intro gs
+    induction gs with
+    | nil => intro c hc; cases hc
+    | cons g t ih =>
+      intro c hc
+      unfold runArms at hc
+      cases hg : runArm tbl g with
+      | error e => rw [hg] at hc; cases hc
+      | ok c' =>
+        rw [hg] at hc
+        simp only [List.mem_cons] at hc
+        rcases hc with rfl | hc
+        · exact hra g _ hg
+        · exact ih c hc
+  intro c hc
+  unfold BarterModel.DynamicInit.init at hc
+  split at hc
+  · cases hc
+  · split at hc
+    · cases hc
+    · rename_i _ vs _ _ chans _
+      have h := hrs (vs.flatMap (groups usort))
+      generalize runArms tbl (vs.flatMap (groups usort)) = p at hc h
+      obtain ⟨cs, oe⟩ := p
+      cases oe with
+      | some e => exact h c hc
+      | none =>
+        cases cs with
+        | nil => cases hc
+        | cons x t => exact h c hc
+
+/-- The same with the (unneeded) hypotheses of the first version; bookkeeping, see
+`policy_is_a_constant_of_the_model`. -/
 theorem every_call_uses_default_policy {ι : Type} [DecidableEq ι] (tbl : Table) (ops : InstOps ι)
     (usort : List (Subscr ι) → List (Subscr ι)) (hu : UnstableSort usort) (ht : TableOk tbl)
     (batches : List (List (Subscr ι))) :
@@ -104,7 +162,8 @@ theorem every_call_uses_default_policy {ι : Type} [DecidableEq ι] (tbl : Table
     | ok vs => exact absurd ((validateBatches_ok_iff ops batches vs).mp hvb).1 hv
     | error s => rw [init_rejected ops s batches hvb] at hc; cases hc
 
-/-! ## `init`, for every right table, every batch list, every admissible sort -/
+/-! ## `init`, for every batch list and every admissible sort (`tbl` with `TableOk tbl` = the repository's
+table, `tableOk_unique`) -/
 section generic
 variable {ι : Type} [DecidableEq ι] (ops : InstOps ι) (hl : ops.Lawful)
   {usort : List (Subscr ι) → List (Subscr ι)} (hu : UnstableSort usort)
@@ -200,6 +259,53 @@ theorem kind_and_exchange_preserved (batches : List (List (Subscr ι)))
       rw [← hini]
       exact List.mem_map.mpr ⟨i, hi, rfl⟩
     exact ⟨_, (mem_specSet ops b _).mp ((groups_wf hu (specSet ops b) g hg').2 _ hmem).2, rfl, rfl, rfl⟩
+
+omit hl in
+/-- The same WITHOUT the "all valid" hypothesis (the stronger statement of the sub-check review): on rejected
+input no call is made at all, so the claim holds for every batch list. -/
+theorem kind_and_exchange_preserved_always (batches : List (List (Subscr ι))) :
+    ∀ c ∈ (init tbl ops usort batches).calls, ∃ b ∈ batches,
+      c.instruments ≠ [] ∧ ∀ i ∈ c.instruments, ∃ s ∈ b, s.instrument = i ∧ s.kind = c.kind ∧ s.exchange = c.id := by
+  by_cases hv : ∀ b ∈ batches, ∀ s ∈ b, s.valid ops = true
+  · exact kind_and_exchange_preserved ops hu ht batches hv
+  · intro c hc
+    cases hvb : validateBatches ops batches with
+    | ok vs => exact absurd ((validateBatches_ok_iff ops batches vs).mp hvb).1 hv
+    | error s => rw [init_rejected ops s batches hvb] at hc; cases hc
+
+omit hl in
+/-- DEAD PATHS of the model, made explicit: for a right table every group of validated batches reaches an
+existing arm with a non-empty group — so the `getD default` in `armCall` is never taken and `runArm` never
+returns `Unsupported` / `SubscriptionsEmpty` … -/
+theorem arm_lookup_never_defaults (batches : List (List (Subscr ι)))
+    (hv : ∀ b ∈ batches, ∀ s ∈ b, s.valid ops = true) :
+    ∀ g ∈ (batches.map (specSet ops)).flatMap (groups usort),
+      (∃ b, tbl g.1.1 g.1.2 = some b ∧ armCall tbl g = callOf b g) ∧ runArm tbl g = .ok (armCall tbl g) := by
+  intro g hg
+  have hgood := groups_good ops hu batches hv g hg
+  have h := ht.arm_iff g.1.1 g.1.2
+  rw [hgood.1] at h
+  obtain ⟨b, hb⟩ := Option.isSome_iff_exists.mp h
+  exact ⟨⟨b, hb, by simp [armCall, hb]⟩, runArm_ok ht g hgood.1 hgood.2.1⟩
+
+omit hl in
+/-- … and the only error `init` returns is the validation error (`DataError::Unsupported`,
+`UnsupportedSubKind`, `SubscriptionsEmpty` are unreachable; C13V `init_error_is_validation_error` for the
+pattern table, here for the bodies). -/
+theorem only_validation_errors (batches : List (List (Subscr ι))) (e : InitErr ι)
+    (h : (init tbl ops usort batches).outcome = .error e) :
+    ∃ s, e = .validation s ∧ validateBatches ops batches = .error s := by
+  cases hvb : validateBatches ops batches with
+  | error s =>
+    rw [init_rejected ops s batches hvb] at h
+    injection h with h
+    exact ⟨s, h.symm, rfl⟩
+  | ok vs =>
+    have hv := ((validateBatches_ok_iff ops batches vs).mp hvb).1
+    obtain ⟨chans, _, hinit⟩ := init_accepted ht ops hu batches hv
+    rw [hinit] at h
+    simp only at h
+    split at h <;> cases h
 
 /-- EXACTLY ONCE: on supported input a subscription is initialised once per batch that holds it — however
 often it is repeated inside the batch, in whatever order — and a triple no batch holds is never initialised. -/
@@ -341,6 +447,40 @@ theorem init_refines_spec (usort : List (Subscr Inst) → List (Subscr Inst)) (h
     Spec (Subscr.valid instOps) batches (init armBody instOps usort batches) :=
   refines_spec instOps instOps_lawful hu armBody_ok batches
 
+/-! ## "Every right table" is ONE table -/
+
+/-- `TableOk` pins the table down completely: the only right table is the repository's. The theorems above
+that are stated "for every right table" are therefore exactly the theorems for `armBody` — `TableOk` is a way
+of saying WHICH four properties of `armBody` the proofs use (arm pattern, own id, own kind, own family), not
+a generalisation. The tie between `armBody` and dynamic/mod.rs is the harness (the table is copied by hand). -/
+theorem tableOk_unique (tbl : Table) (ht : TableOk tbl) : tbl = armBody := by
+  funext e k
+  have h1 := ht.arm_iff e k
+  have h2 := armBody_ok.arm_iff e k
+  cases hb : tbl e k with
+  | none =>
+    rw [hb] at h1
+    cases ha : armBody e k with
+    | none => rfl
+    | some b => rw [ha] at h2; simp at h1 h2; rw [h2] at h1; cases h1
+  | some b =>
+    rw [hb] at h1
+    cases ha : armBody e k with
+    | none => rw [ha] at h2; simp at h1 h2; rw [h1] at h2; cases h2
+    | some b' =>
+      have i1 := ht.own_id e k b hb
+      have i2 := armBody_ok.own_id e k b' ha
+      have k1 := ht.own_kind e k b hb
+      have k2 := armBody_ok.own_kind e k b' ha
+      have c1 := ht.own_chan e k b hb
+      have c2 := armBody_ok.own_chan e k b' ha
+      have hc : b.conn = b'.conn := connId_inj (i1.trans i2.symm)
+      obtain ⟨bc, bk, bch⟩ := b
+      obtain ⟨bc', bk', bch'⟩ := b'
+      simp only at hc k1 k2 c1 c2
+      subst hc; subst k1; subst k2
+      rw [c1] at c2; injection c2 with c2; subst c2; rfl
+
 /-! ## What a wrong body does (the specification is not vacuous, and one wrong name is enough) -/
 
 /-- `GateioFuturesUsd::default()` written in the `GateioFuturesBtc` arm. -/
@@ -387,6 +527,32 @@ theorem wrong_kind_violates_spec :
   rw [if_pos (by decide), hrun] at h
   have := h.1.mem_iff (a := spotTrades)
   revert this; decide
+
+/-- BinanceSpot trades forwarded into `txs.l2s`: the body of the `(BinanceSpot, PublicTrades)` arm with another
+channel family. -/
+def wrongChan : Table := fun e k =>
+  match e, k with
+  | .binanceSpot, .publicTrades => some ⟨.binanceSpot, .publicTrades, .l2s⟩
+  | e, k => armBody e k
+
+theorem wrong_chan_is_not_ok : ¬ TableOk wrongChan := fun h => by
+  have := h.own_chan .binanceSpot .publicTrades _ rfl
+  revert this; decide
+
+/-- THE SPECIFICATION DOES NOT CONSTRAIN THE CHANNEL FAMILY: the wrong-family table is not `TableOk`, its run
+forwards into `l2s` — and `Spec` is satisfied all the same (what is initialised and the outcome are those of
+the right table). `Spec`, the oracle and the offline harness see connector, kind and instruments only;
+`arm_forwards_to_own_family` is a statement about the hand-copied table, read from the source and NOT
+observed (`mutants/C13D.d/unobservable_arm_forwards_to_other_exchange.patch` passes). -/
+theorem wrong_chan_satisfies_spec :
+    ((init wrongChan instOps stableSort [[spotTrades]]).calls.map (·.chan)) = [Chan.l2s] ∧
+      Spec (Subscr.valid instOps) [[spotTrades]] (init wrongChan instOps stableSort [[spotTrades]]) := by
+  have h1 : (init wrongChan instOps stableSort [[spotTrades]]).initialised = [spotTrades] := by decide +kernel
+  have h2 : (init wrongChan instOps stableSort [[spotTrades]]).outcome = .network := by decide +kernel
+  refine ⟨by decide +kernel, ?_⟩
+  unfold Spec
+  rw [if_pos (by decide), h1, h2]
+  exact ⟨by decide, fun e h => by cases h⟩
 
 /-! ## Non-vacuity -/
 
